@@ -227,7 +227,7 @@ fn load_comments<R: Read + std::io::Seek>(
             let text = comment
                 .descendants()
                 .filter(|n| n.has_tag_name("t"))
-                .map(|n| n.text().unwrap().to_string())
+                .map(|n| n.text().unwrap_or("").to_string())
                 .collect::<Vec<String>>()
                 .join("");
             let cell_ref = get_attribute(&comment, "ref")?.to_string();
@@ -558,6 +558,10 @@ fn load_sheet_rels<R: Read + std::io::Seek>(
     // relationship id ("rId4") -> target of the hyperlink
     let mut hyperlinks = HashMap::new();
     let v: Vec<&str> = path.split("/worksheets/").collect();
+    if v.len() < 2 {
+        // not under a `worksheets/` folder: there is no conventional place for its rels
+        return Ok((comments, hyperlinks));
+    }
     let mut path = v[0].to_string();
     path.push_str("/worksheets/_rels/");
     path.push_str(v[1]);
@@ -582,6 +586,9 @@ fn load_sheet_rels<R: Read + std::io::Seek>(
         if t.ends_with("comments") {
             let mut target = get_attribute(&rel, "Target")?.to_string();
             // Target="../comments1.xlsx"
+            if !target.starts_with("..") {
+                return Err(XlsxError::Xml(format!("Unsupported comments target: {target}")));
+            }
             target.replace_range(..2, v[0]);
             comments = load_comments(archive, &target)?;
         } else if t.ends_with("hyperlink") {
@@ -595,6 +602,9 @@ fn load_sheet_rels<R: Read + std::io::Seek>(
                 p.to_string()
             } else {
                 // Target="../table1.xlsx"
+                if !target.starts_with("..") {
+                    return Err(XlsxError::Xml(format!("Unsupported table target: {target}")));
+                }
                 target.replace_range(..2, v[0]);
                 target
             };
@@ -872,8 +882,8 @@ pub(super) fn load_sheet<R: Read + std::io::Seek>(
     let mut sheet_data = SheetData::new();
     let sheet_data_nodes = ws
         .children()
-        .filter(|n| n.has_tag_name("sheetData"))
-        .collect::<Vec<Node>>()[0];
+        .find(|n| n.has_tag_name("sheetData"))
+        .ok_or_else(|| XlsxError::Xml("Missing <sheetData> in worksheet".to_string()))?;
 
     let default_row_height = 14.5;
 
@@ -1297,7 +1307,9 @@ pub(super) fn load_sheets<R: Read + std::io::Seek>(
     // load comments, tables and hyperlink relationships
     let mut sheet_rels = HashMap::new();
     for sheet in &workbook.worksheets {
-        let rel = &rels[&sheet.id];
+        let rel = rels
+            .get(&sheet.id)
+            .ok_or_else(|| XlsxError::Xml(format!("Missing relationship {}", sheet.id)))?;
         if rel.rel_type.ends_with("worksheet") {
             let path = &rel.target;
             let path = if let Some(p) = path.strip_prefix('/') {
@@ -1324,7 +1336,9 @@ pub(super) fn load_sheets<R: Read + std::io::Seek>(
         let sheet_name = &sheet.name;
         let rel_id = &sheet.id;
         let state = &sheet.state;
-        let rel = &rels[rel_id];
+        let rel = rels
+            .get(rel_id)
+            .ok_or_else(|| XlsxError::Xml(format!("Missing relationship {rel_id}")))?;
         if rel.rel_type.ends_with("worksheet") {
             let path = &rel.target;
             let path = if let Some(p) = path.strip_prefix('/') {
